@@ -91,4 +91,25 @@ PROPS = {
         'explanation': 'iff-contracts of the constraints checker: range bookkeeping (extensible => not enforced), INTEGER / BIT STRING / '
                        'OCTET STRING / character string size and alphabet, SEQUENCE OF (every element visited), CHOICE',
     },
+    'C12': {
+        'assumptions': [GRAPH, 'induction over the value structure (each container adds its component when the child error passes '
+                        'through) is argued, not mechanised; SEQUENCE/SET member traversal (Dict.encode_members, '
+                        'MembersType.encode_member) and the PER/OER/JER/GSER wrappers are not under contract yet'],
+        'trusted_base': [FOREIGN],
+        'explanation': 'type checker accepts exactly the Python types of the README table (raises-iff per kind); the location of an '
+                       'error raised inside a CHOICE alternative / recursive type / top-level type ends with that component, so the '
+                       'printed dotted path starts at the type and leads to the component',
+    },
+    'C17': {
+        'level': 'other',
+        'extra': [('cache-key data-flow', extras.cache_key_check)],
+        'needs_contracts': False,
+        'assumptions': ['diskcache.Cache is a map with atomic stores whose values survive pickling (crash points and damaged cache '
+                        'files rest on sqlite/pickle integrity; outside any contract here)',
+                        'compile_dict(parse_files(...)) is a deterministic function of file contents, codec and options'],
+        'trusted_base': ['data-flow analysis in pyvc/extras.py::cache_key_check'],
+        'explanation': 'key-determines-result: every input of the miss branch flows into the key; the file part is the raw bytes; every '
+                       'variable-length part is length prefixed and the codec names are prefix free (injective framing); cached and '
+                       'uncached paths receive the same arguments',
+    },
 }
